@@ -14,11 +14,11 @@ func (m *openGameManager) readyGroupAddParticipant(participant OpenGameParticipa
 	m.rg.Add(int64(participant.Index), isReady)
 }
 
-func (m *openGameManager) readyGroupOnCompleted() {
-	for participantID := range m.state.Participants {
-		m.state.Participants[participantID].IsReady = true
+func (m *openGameManager) readyGroupOnCompleted(state *OpenGameState) {
+	for participantID := range state.Participants {
+		state.Participants[participantID].IsReady = true
 	}
-	m.onOpenGameReady(m.GetState())
+	m.onOpenGameReady(*state)
 }
 
 func (m *openGameManager) readyGroupReady(participantID string) error {
